@@ -7,7 +7,6 @@
 #![allow(clippy::type_repetition_in_bounds)]
 
 use std::cmp::Ordering;
-use std::f64::consts::PI;
 use std::fmt::Write;
 use std::ops::Mul;
 
@@ -125,11 +124,16 @@ where
     /// neighbouring cells ensures there are no intersections of when tiling space.
     ///
     fn check_intersection(&self) -> bool {
-        let periodic_range = match (self.cell.a() / self.cell.b(), self.cell.angle()) {
-            (p, a) if 0.5 < p && p < 2. && f64::abs(a - PI / 2.) < 0.2 => 1,
-            (p, a) if 0.3 < p && p < 3. && f64::abs(a - PI / 2.) < 0.5 => 2,
-            _ => 3,
-        };
+        // Two shapes can only intersect when their centres are closer than twice the enclosing
+        // radius. Both copies lie within one cell, so an image n cells away along a lattice
+        // direction is more than n - 1 cell heights away, which bounds the images to search.
+        let height = f64::min(self.cell.a(), self.cell.b()) * self.cell.angle().sin();
+        if !(height > 0.) {
+            // A degenerate cell cannot hold a shape
+            return true;
+        }
+        let periodic_range =
+            f64::min(2. * self.shape.enclosing_radius() / height, 1e9).ceil() as i64;
         // Compare within the current cell
         for (index, shape1) in self
             .cartesian_positions()
@@ -152,7 +156,12 @@ where
         for transform1 in self.cartesian_positions() {
             let shape1 = self.shape.transform(&transform1);
             for position in self.relative_positions() {
-                for transform2 in self.cell.periodic_images(position, periodic_range, false) {
+                // The nearest images are checked first, they decide nearly all cases
+                for transform2 in self
+                    .cell
+                    .periodic_images(position, 1, false)
+                    .chain(self.cell.periodic_images(position, periodic_range, false))
+                {
                     let distance = (transform1.position() - transform2.position()).norm_squared();
                     if distance <= radius_sq {
                         let shape2 = self.shape.transform(&transform2);
